@@ -1,9 +1,66 @@
-import Claripy.VSA.Shift
-/-! # C21 — strided-interval transfer functions are sound (theorems are added below as they are proved) -/
+import Claripy.VSA.Conc
+import ClaripyProofs.Lemmas.VSA.AddSub
+/-!
+# C21 — strided-interval transfer functions are sound
+
+Shape of every statement: `mem x a → mem y b → op♯ a b = ok r → mem (op x y) r`, for ALL widths, with the decidable
+well-formedness predicate `SI.WF` (what `normalize` establishes) as hypothesis.  Where the statement is false on
+the code, its negation is proved with a concrete witness (replayed on the real code by the check) and the
+guarded version is kept.  `test_…` facts are bounded and not counted as theorems.
+-/
 namespace Claripy.Props.C21
 open Claripy.VSA
 
-/-- bounded sanity fact (a test, not a theorem): the model's `add` on one pair -/
+/-- soundness of a binary transfer function under a guard on the operands -/
+def SoundBin (conc : Nat → Nat → Nat → Nat) (op : SI → SI → R SI) (guard : SI → SI → Prop) : Prop :=
+  ∀ (a b r : SI) (x y : Nat), a.WF → b.WF → a.bits = b.bits → guard a b → a.mem x → b.mem y →
+    op a b = .ok r → r.mem (conc a.bits x y)
+
+def noGuard : SI → SI → Prop := fun _ _ => True
+def bothAligned : SI → SI → Prop := fun a b => a.Aligned ∧ b.Aligned
+
+/-! ## add -/
+
+/-- `add` is sound for all well-formed operands of all widths (no alignment needed). -/
+theorem C21_add_sound : SoundBin Conc.add (fun a b => pure (a.add b)) noGuard := by
+  intro a b r x y ha hb hbits _ hx hy hr
+  have : r = a.add b := by cases hr; rfl
+  subst this
+  exact add_sound a b x y hbits ha hb hx hy
+
+/-- non-vacuity: a wrapping, strided instance of the hypotheses -/
+example : (SI.new 8 3 250 4).WF ∧ (SI.new 8 2 1 7).WF ∧ (SI.new 8 3 250 4).mem 0 ∧ (SI.new 8 2 1 7).mem 5 ∧
+    ((SI.new 8 3 250 4).add (SI.new 8 2 1 7)).mem 5 := by decide
+
+/-! ## sdiv — false on the code (floor instead of truncation), finding C21-sdiv-floor -/
+
+/-- full statement: `sdiv` is sound w.r.t. SMT-LIB `bvsdiv` for every iteration order of its result set -/
+def C21_sdiv_full : Prop :=
+  ∀ order, SoundBin Conc.sdiv (fun a b => a.sdiv b order) (fun _ b => ¬ b.mem 0)
+
+/-- `1 /s -2 = 0` at 2 bits, but `sdiv {1} {2} = {3}` (floor division). -/
+theorem sdiv_unsound : ¬ C21_sdiv_full := by
+  intro h
+  have := h [0] (SI.new 2 0 1 1) (SI.new 2 0 2 2) (SI.new 2 0 3 3) 1 2
+    (by decide) (by decide) (by decide) (by decide) (by decide) (by decide) (by decide)
+  exact absurd this (by decide)
+
+/-! ## mul — false for operands whose upper bound is not a member, finding C21-mul-unaligned -/
+
+def C21_mul_full : Prop := SoundBin Conc.mul SI.mul noGuard
+
+/-- `2 * 0 = 0`, but `mul {2} 2[0,1]` is empty (`2[0,1]` is `{0}`; its upper bound 1 is not a member). -/
+theorem mul_unaligned_unsound : ¬ C21_mul_full := by
+  intro h
+  have := h (SI.new 2 0 2 2) { bits := 2, stride := 2, lb := 0, ub := 1 } (SI.empty 2) 2 0
+    (by decide) (by decide) (by decide) trivial (by decide) (by decide) (by decide)
+  exact absurd this (by decide)
+
+/-- the statement that remains to be proved for `mul` (guard = both operands aligned) -/
+def C21_mul_aligned : Prop := SoundBin Conc.mul SI.mul bothAligned
+
+/-! ## bounded tests (not theorems) -/
+
 theorem test_add_example : (SI.new 8 1 3 9).add (SI.new 8 2 0 6) = SI.new 8 1 3 15 := by decide
 
 end Claripy.Props.C21
